@@ -131,3 +131,30 @@ func H_C03_line_detection_order_independent() {
 	}
 	vReach("end")
 }
+
+// H_C09_blocks_conserve: block detection (grouping, merging of overlapping blocks, validation) keeps every fragment
+// exactly once, both in Block.Fragments and in Block.Lines.
+//
+//symgo:harness prop=C09 kernel=K3-blocks real=1
+//symgo:desc 1..3 fragments with symbolic real X, Y, Width (Height 10 quick / symbolic thorough): over all detected blocks each label occurs exactly once in Fragments, exactly once in Lines, and GetAllFragments returns each once
+func H_C09_blocks_conserve() {
+	n := vAnyIntIn(1, 3)
+	frags := vFrags(n, vTier() > 0)
+	bl := NewBlockDetector().Detect(frags, 612, 792)
+	vAssert("layout", bl != nil)
+	var inFrags, inLines []text.TextFragment
+	for _, b := range bl.Blocks {
+		inFrags = append(inFrags, b.Fragments...)
+		for _, ln := range b.Lines {
+			inLines = append(inLines, ln...)
+		}
+	}
+	all := bl.GetAllFragments()
+	for i := 0; i < n; i++ {
+		lb := string(rune('A' + i))
+		vAssert("each-fragment-in-exactly-one-block", vCountLabel(inFrags, lb) == 1)
+		vAssert("each-fragment-in-exactly-one-block-line", vCountLabel(inLines, lb) == 1)
+		vAssert("all-fragments-has-each-once", vCountLabel(all, lb) == 1)
+	}
+	vReach("end")
+}
